@@ -7,6 +7,7 @@ func init() {
 	}, func(e *Env) {
 		e.RCursor(true)
 		e.RCommentLines()
+		e.RParenSync()
 		e.RCommentsNotShared()
 		e.RAstOrder()
 	})
